@@ -193,11 +193,11 @@ def headerLines (out : Str) : List Str := (lines out).takeWhile fun l => !keywor
 /-- which conjunct of the layout domain fails (evidence only) -/
 def whyNotLayout (x : Sequence) : String :=
   let m := x.metadata
-  (if wfLocus m.locus then "" else "locus ")
-  ++ (if singleSpaced m.definition && singleSpaced m.accession && singleSpaced m.version && singleSpaced m.keywords
-        && singleSpaced m.source && singleSpaced m.organism then "" else "metadata-text ")
-  ++ (if m.references.all wfRef then "" else "reference-text ")
-  ++ (if nodupKeys m.other && m.other.all (wfOther 12) then "" else "other ")
+  (if wfLocusJ m.locus then "" else "locus ")
+  ++ (if textJ m.definition && textJ m.accession && textJ m.version && textJ m.keywords
+        && textJ m.source && textJ m.organism then "" else "metadata-text ")
+  ++ (if m.references.all wfRefJ then "" else "reference-text ")
+  ++ (if nodupKeys m.other && m.other.all (wfOtherJ 12) then "" else "other ")
   ++ (if x.features.all wfFeature then "" else "feature ")
   ++ (if x.sequence != [] && x.sequence.all isLetter then "" else "sequence ")
 
@@ -242,14 +242,31 @@ def judgeRec (kind : String) (x : Sequence) (tail : List String) : Verdict :=
       | .ok ym, "panic", _ => locPanics ym
       | .panic, "panic", _ => true
       | _, _, _ => false
-    let corr := outL == m && m2 == m && pcorr
-    let layoutDom := wfLayout x
-    let rtDom := wfSeq x
+    -- `img`: the cached location text the real parser reported must denote the structure it reported
+    let cacheOk := kind != "img" || x.features.all fun f => f.gbkLocationString == [] || cacheConsistent f
+    let corr := outL == m && m2 == m && pcorr && cacheOk
+    let layoutDom := wfLayoutJ x
+    let rtDom := wfSeqJ x
+    let thmDom := wfSeq x
     let c2 := identical == "true"
-    let c3 := strictRead outL == some (abs x)
+    let got := strictRead outL
+    let c3 := got == some (abs x)
     let diffs := match y with | some y => diffFields x y | none => ["unparsed"]
-    let c4 := pst == "ok" && wrst == "same" && (match y with | some y => seqEquiv x y | none => false)
-    let kf := ""
+    let c4 := pst == "ok" && wrst == "same" && (match y with | some y => seqEquiv x y && codingOk x y | none => false)
+    -- the three known findings: what they predict to come back (`expectedBack`); a failure is tagged
+    -- only when the implementation returned exactly that
+    let xe := expectedBack x
+    let anyKf := clsBlankRun x || clsNameless x || clsRefNumber x
+    let c3K := if clsNameless x then
+                 (match got with
+                  | some r => r.blocks == (abs xe).blocks && r.feats == (abs xe).feats && r.origin == (abs xe).origin
+                  | none => true)
+               else got == some (abs xe)
+    let c4K := pst == "ok" && wrst == "same" && (match y with | some y => seqEquiv xe y && codingOk xe y | none => false)
+    let kf := if anyKf && c2 && c3K && (!rtDom || c4K) then
+        (if clsBlankRun x then " kf:C03-blank-run-at-wrap" else "") ++ (if clsNameless x then " kf:C03-nameless-locus" else "")
+          ++ (if clsRefNumber x then " kf:C03-reference-number" else "")
+      else ""
     -- regression classes of the three repaired defects (evidence only; they are judged like every other case)
     let reg := (if clsLocusSearch x then "/locus-token" else "")
       ++ (if clsSubKeyword m || clsTopKeyword m then "/keyword-at-line-start" else "")
@@ -265,6 +282,7 @@ def judgeRec (kind : String) (x : Sequence) (tail : List String) : Verdict :=
         ++ (if !rtDom || c4 then "" else "[round trip: parse=" ++ pst ++ " write/read=" ++ wrst ++ " differing: " ++ ", ".intercalate diffs ++ "]")
         ++ (if layoutDom then "" else "[outside the layout domain: " ++ whyNotLayout x ++ "]")
         ++ (if pcorr then "" else "[parser model differs from the real parser on this text]")
+        ++ (if cacheOk then "" else "[a cached location text reported by the real parser does not denote the structure it reported]")
         ++ (if outL == m && m2 == m then "" else
               let k := firstDiff outL m
               "[model differs at " ++ toString k ++ ": impl …" ++ snippet outL k ++ "… model …" ++ snippet m k ++ "…]")
@@ -273,6 +291,7 @@ def judgeRec (kind : String) (x : Sequence) (tail : List String) : Verdict :=
       cls := (if triv then "triv:" else "") ++ kind ++ "/feat" ++ sizeTag x.features.length ++ "/ref" ++ sizeTag x.metadata.references.length
              ++ "/other" ++ sizeTag x.metadata.other.length ++ (if wraps then "/wrap" else "") ++ (if cached then "/cached" else "")
              ++ (if structural then "/structural" else "") ++ (if rtDom then "/rt" else if layoutDom then "/layout-only" else "/out")
+             ++ (if thmDom then "/thm" else "")
              ++ (if Spec.GbRoundTrip.covered x then "/pb" else "")
              ++ (if x.sequence.length > 10000 then "/long" else "") ++ reg ++ kf,
       detail := why }
@@ -294,7 +313,7 @@ def judge (f out : List String) : Verdict :=
   | "rec" :: r, st :: _ =>
     -- Build itself failed: a violation when the record is in the domain
     match decodeRec r with
-    | some (x, []) => { corr := false, judge := if wfLayout x then some false else none, cls := "rec/build-" ++ st,
+    | some (x, []) => { corr := false, judge := if wfLayoutJ x then some false else none, cls := "rec/build-" ++ st,
                         detail := "Build did not return: " ++ st }
     | _ => { corr := false, judge := none, cls := "bad-case", detail := "bad case" }
   | _, _ => { corr := false, judge := none, cls := "bad-case", detail := "bad case" }
